@@ -44,7 +44,7 @@ type arrCopy struct {
 }
 
 type walkInfo struct {
-	x, y    cmpKey
+	x, y   cmpKey
 	covers bool
 	how    string
 	exit   *ssa.BasicBlock
